@@ -45,12 +45,12 @@ func init() {
 		},
 		&Spec{
 			ID: "C07", Title: "Secure channel chunking round-trips every message under every policy and mode",
-			Quick: Tier{Groups: []Group{{"uasc", "^VerifH_C07_Sizes$"}, {"uasc", "^VerifH_C07_RoundTrip$"}}, Params: map[string]int{"c07.chunks": 2, "c07.cs": 8192, "c07.targets": 4}, MaxSymLen: 2, Budget: 280 * time.Second, Solver: "cvc5"},
+			Quick: Tier{Groups: []Group{{"uasc", "^VerifH_C07_Sizes$"}, {"uasc", "^VerifH_C07_RoundTrip$"}, {"uasc", "^VerifH_C07_OPN$"}}, Params: map[string]int{"c07.chunks": 2, "c07.cs": 8192, "c07.targets": 4}, MaxSymLen: 2, Budget: 280 * time.Second, Solver: "cvc5"},
 			Thorough: Tier{Groups: []Group{{"uasc", "^VerifH_C07_"}}, Params: map[string]int{"c07.chunks": 4, "c07.cs": 8192, "c07.targets": 6}, MaxSymLen: 4, Budget: 50 * time.Minute, Solver: "cvc5"},
-			Reach: []string{"VerifH_C07_Sizes:sent", "VerifH_C07_Sizes:header", "VerifH_C07_Sizes:multi", "VerifH_C07_RoundTrip:delivered", "VerifH_C07_RoundTrip:multi"},
+			Reach: []string{"VerifH_C07_Sizes:sent", "VerifH_C07_Sizes:header", "VerifH_C07_Sizes:multi", "VerifH_C07_RoundTrip:delivered", "VerifH_C07_RoundTrip:multi", "VerifH_C07_OPN:opn"},
 			Bounds: []string{"Sizes: chunk size every value in [8192, 2^31-1]; message body of every length that needs at most c07.chunks chunks; all five symmetric policies x {Sign, SignAndEncrypt} and None; starting sequence number any uint32",
-				"RoundTrip: chunk size c07.cs (8192); body lengths {minimal, +1, max-1, max, max+1, 2*max+3} (first c07.targets of them); every body byte, both nonces and the starting sequence number symbolic; the sender's wire bytes are fed to the peer's real receive path"},
-			Outside: []string{"asymmetric OPN chunks (single chunk; key sizes) are decided in C15", "more chunks than c07.chunks; RoundTrip at other chunk sizes", "real AES / HMAC / RSA (idealised: see stubs)"},
+				"OPN: an OpenSecureChannel request with symbolic nonce and lifetime from a client with key size a to a server with key size b (every pair from the policy's sizes, so mixed ExtraPaddingSize classes), read by the server's real readChunk (certificate from the header, asymmetric verifyAndDecrypt)", "RoundTrip: chunk size c07.cs (8192); body lengths {minimal, +1, max-1, max, max+1, 2*max+3} (first c07.targets of them); every body byte, both nonces and the starting sequence number symbolic; the sender's wire bytes are fed to the peer's real receive path"},
+			Outside: []string{"more chunks than c07.chunks; RoundTrip at other chunk sizes", "OPN: key sizes other than {1024,2048} / {2048,3072,4096} bits, multi-chunk OPN", "real AES / HMAC / RSA (idealised: see stubs)"},
 			Stubs: []string{"HMAC and SHA: uninterpreted functions by Ackermann's reduction; AES-CBC: uninterpreted E/D pair with D(E(x)) = x per (key, iv)", "TCP: in-memory stream model; Sizes uses length-abstracted bytes with tracked headers"},
 		},
 		&Spec{
